@@ -703,6 +703,33 @@ theorem conform_vs_code (w : World) (h : Hello) (a : Option Bytes) (now : Int) :
         · exact absurd h1 hv
   | _ => cases a <;> simp [hres]
 
+/-! ### non-vacuity: concrete worlds -/
+
+/-- "a.b" -/
+def exName : Bytes := [0x61, 0x2e, 0x62]
+/-- a modern hello: ECDSA cipher suite, no signature/curve restrictions -/
+def exHello : Hello := ⟨exName, [], none, none, [0xc02b]⟩
+def exChallengeHello : Hello := ⟨exName, [alpnProto], none, none, [0xc02b]⟩
+def exCert : Cert := ⟨1, 0, 100, true, false, .ec, .ec, true⟩
+def exWorld (wl : Option (List Bytes)) (st : List (Bytes × StateVal)) (ca : Option Cert) (tok : List (Bytes × Cert)) : World :=
+  { whitelist := wl, cache := some [(exName, .cert exCert)], state := st, ca := fun _ => ca, tokens := tok }
+
+-- served from the cache while valid (hypotheses of served_cert_valid / served_implies_policy are satisfiable)
+example : (getCertificate (exWorld (some [exName]) [] none []) exHello (some exName) 50).2.1 = .served exCert := by decide
+-- the policy gate: same world, name not on the whitelist
+example : (getCertificate (exWorld (some []) [] none []) exHello (some exName) 50) = ([.policy exName], .errPolicy, []) := by decide
+-- expired in the cache: miss, then issuance by the CA (one order, cachePut)
+example : (getCertificate (exWorld none [] (some { exCert with id := 0, na := 500 }) []) exHello (some exName) 200).2.1
+    = .issued { exCert with id := 0, na := 500 } := by decide
+-- observation O6: the same certificate sitting in m.state is served after its NotAfter …
+example : (getCertificate (exWorld none [(exName, .ready exCert)] none []) exHello (some exName) 200).2.1 = .served exCert := by decide
+-- … which `conform` refuses
+example : (conform (exWorld none [(exName, .ready exCert)] none []) exHello (some exName) 200).2.1 = .expiredNotServed := by decide
+-- a challenge hello gets the in-memory challenge certificate although the policy accepts nothing
+example : (getCertificate (exWorld (some []) [] none [(exName, exCert)]) exChallengeHello (some exName) 200)
+    = ([], .tokenMem exCert, []) := by decide
+example : validCert (certKeyOf exHello exName) exCert 100 = true ∧ validCert (certKeyOf exHello exName) exCert 101 = false := by decide
+
 /-! ## 4. one creator per `certKey` (all interleavings) -/
 
 def Inv (s : Sys) : Prop :=
